@@ -13,6 +13,9 @@ LEVEL_TEXT = ("static: decides on every path that (a) the server order is never 
 # fifth-round additions
 TECHNIQUE += "; " + "must-pass-through (claim before the indirect destructor call) in the skip list's node_destroy"
 LEVEL_TEXT += " " + '(UNLINKFIRST) a server is off channel->servers before its destructor re-sends its in-flight queries.'
+# seventh/eighth-round addition
+TECHNIQUE += "; " + 'argument census of every handle_conn_error call (failure status => critical)'
+LEVEL_TEXT += " " + '(HEALTH, eighth round) every connection-level error that carries a failure status demotes the server, whatever the transport.'
 LEVEL_NOTE = "trusts clang CFG + extractor and the skip list's correctness (C19)"
 DESIGN_REF = "DESIGN.md §6/C09"
 EXPLANATION = LEVEL_TEXT
